@@ -58,11 +58,18 @@ package check
 //@ func (*Engine).CheckIsMember
 //@   props C03 C08
 //@   requires wfe(e) && r != nil && ctx != nil
+//@   modifies engineCalls, engineAllowed, engineFailed, faulted, db
 //@   ensures[C03] err-means-denied: result1 != nil ==> !result0
+//@   ensures[C08] engine-decision: result0 == (result.Err == nil && result.Membership == checkgroup.IsMember) && result1 == result.Err
+//@   ghost-at-return engineCalls := engineCalls + 1
+//@   ghost-at-return engineAllowed := result0
+//@   ghost-at-return engineFailed := result1 != nil
+//@   ensures engineCalls == old(engineCalls) + 1 && engineAllowed == result0 && engineFailed == (result1 != nil)
 
 //@ func (*Engine).CheckRelationTuple
 //@   props C02 C03 C15
 //@   opt abandon-props C15
+//@   modifies faulted, db
 //@   requires wfe(e) && r != nil && ctx != nil
 //@   callsite (*Engine).checkIsAllowed requires[C02] clamp: restDepth == eff(old(restDepth), globalMaxDepth) && 1 <= restDepth && restDepth <= globalMaxDepth
 //@   ensures[C03] result-inv: res.Err != nil ==> res.Membership != checkgroup.IsMember
@@ -219,3 +226,115 @@ package check
 //@   ensures[C03] err-propagates: faulted && !old(faulted) ==> lastsent(resultCh).Err != nil || lastsent(resultCh).Membership == checkgroup.IsMember
 //@   loop 1 invariant faulted == old(faulted) && !gerr(g)
 //@   loop 2 invariant !gerr(g)
+
+// =====================================================================================
+// Transport handlers (C08 agreement with the engine, C13 no crash, C17 read-only)
+
+//@ func handlerDependencies.Writer
+//@   trusted
+//@   pure
+//@   ensures result != nil
+//@ func handlerDependencies.ReadOnlyMapper
+//@   trusted
+//@   pure
+//@   ensures result != nil
+//@ func handlerDependencies.PermissionEngine
+//@   trusted
+//@   pure
+//@   ensures result != nil && wfe(result)
+//@ func handlerDependencies.Config
+//@   trusted
+//@   pure
+//@   ensures result != nil
+//@ func handlerDependencies.Logger
+//@   trusted
+//@   pure
+//@   ensures result != nil
+
+//@ func (*Engine).BatchCheck
+//@   modifies engineCalls, engineAllowed, engineFailed, faulted, db
+//@   noframe
+//@   props C08 C13
+//@   requires wfe(e) && ctx != nil
+//@   requires[C13] no-nil-tuple: forall i in 0..len(tuples) :: tuples[i] != nil
+//@   ensures[C08] one-result-per-tuple: result1 == nil ==> len(result0) == len(tuples)
+
+//@ func (*Engine).BatchCheck$1
+//@   modifies elems(results), engineCalls, engineAllowed, engineFailed, faulted, db
+//@   noframe
+//@   props C08 C13 C03
+//@   requires wfe(e) && ctx != nil && mapper != nil && tuple != nil && 0 <= i && i < len(results)
+//@   ensures[C03] slot-inv: results[i].Err != nil ==> results[i].Membership != checkgroup.IsMember
+
+// ghost record of the engine's last decision, set by CheckIsMember
+//@ ghostvar engineCalls int
+//@ ghostvar engineAllowed bool
+//@ ghostvar engineFailed bool
+
+//@ spec wfh(h *Handler) bool = h != nil && h.d != nil
+
+// transport preconditions (T8): the request and its URL are present
+//@ spec wfreq(r *http.Request) bool = r != nil && r.URL != nil
+
+//@ func (*Handler).getCheck
+//@   modifies engineCalls, engineAllowed, engineFailed, faulted, db
+//@   props C08 C13 C17
+//@   requires wfh(h) && ctx != nil && q != nil
+//@   ensures[C08] decision-is-the-engines: result0 ==> engineCalls == old(engineCalls) + 1 && engineAllowed && !engineFailed && result1 == nil
+//@   ensures[C08] at-most-one-check: engineCalls == old(engineCalls) || engineCalls == old(engineCalls) + 1
+//@   ensures[C08] engine-result-returned: engineCalls == old(engineCalls) + 1 ==> result0 == (engineAllowed && !engineFailed) && ((result1 != nil) <==> engineFailed)
+
+//@ func (*Handler).postCheck
+//@   modifies engineCalls, engineAllowed, engineFailed, faulted, db
+//@   props C08 C13 C17
+//@   requires wfh(h) && ctx != nil && query != nil && body != nil
+//@   ensures[C08] decision-is-the-engines: result0 ==> engineCalls == old(engineCalls) + 1 && engineAllowed && !engineFailed && result1 == nil
+//@   ensures[C08] engine-result-returned: engineCalls == old(engineCalls) + 1 ==> result0 == (engineAllowed && !engineFailed) && ((result1 != nil) <==> engineFailed)
+
+//@ func (*Handler).getCheckMirrorStatus
+//@   props C08 C13 C17
+//@   requires wfh(h) && wfreq(r) && w != nil
+//@   ensures[C08] mirror-200-iff-allowed: (respKind == 1 <==> (err == nil && allowed)) && (err == nil && !allowed ==> respKind == 2 && respCode == 403) && (err != nil ==> respKind == 3)
+
+//@ func (*Handler).postCheckMirrorStatus
+//@   props C08 C13 C17
+//@   requires wfh(h) && wfreq(r) && w != nil && r.Body != nil
+//@   ensures[C08] mirror-200-iff-allowed: (respKind == 1 <==> (err == nil && allowed)) && (err == nil && !allowed ==> respKind == 2 && respCode == 403) && (err != nil ==> respKind == 3)
+
+//@ func (*Handler).getCheckNoStatus
+//@   props C08 C13 C17
+//@   requires wfh(h) && wfreq(r) && w != nil
+//@   ensures[C08] always-200-unless-error: (err == nil ==> respKind == 1) && (err != nil ==> respKind == 3)
+
+//@ func (*Handler).postCheckNoStatus
+//@   props C08 C13 C17
+//@   requires wfh(h) && wfreq(r) && w != nil && r.Body != nil
+//@   ensures[C08] always-200-unless-error: (err == nil ==> respKind == 1) && (err != nil ==> respKind == 3)
+
+//@ func (*Handler).Check
+//@   modifies engineCalls, engineAllowed, engineFailed, faulted, db
+//@   props C08 C13 C17
+//@   requires wfh(h) && ctx != nil && req != nil && (req.Tuple != nil ==> wfwiresubject(req.Tuple.Subject)) && wfwiresubject(req.Subject)
+//@   ensures[C08] decision-is-the-engines: result1 == nil ==> result0 != nil && engineCalls == old(engineCalls) + 1 && !engineFailed && result0.Allowed == engineAllowed
+//@   ensures[C08] error-means-no-answer: result1 != nil ==> result0 == nil
+
+//@ func (*Handler).doBatchCheck
+//@   modifies engineCalls, engineAllowed, engineFailed, faulted, db
+//@   props C08 C13 C17 C03
+//@   requires wfh(h) && ctx != nil && query != nil && body != nil
+//@   ensures[C08] one-result-per-tuple: result1 == nil ==> len(result0) == len(request.Tuples)
+//@   ensures[C03] error-entry-not-allowed: result1 == nil ==> forall k in 0..len(result0) :: result0[k] != nil && (result0[k].Error != "" ==> !result0[k].Allowed)
+//@   loop 1 invariant responses != nil && len(responses) == len(request.Tuples) && len(results) == len(request.Tuples) && fresh(responses)
+//@   loop 1 invariant forall k in 0..$n :: responses[k] != nil && (responses[k].Error != "" ==> !responses[k].Allowed)
+
+//@ func (*Handler).BatchCheck
+//@   modifies engineCalls, engineAllowed, engineFailed, faulted, db
+//@   props C08 C13 C17 C03
+//@   requires wfh(h) && ctx != nil && req != nil
+//@   requires forall i in 0..len(req.Tuples) :: req.Tuples[i] != nil && wfwiresubject(req.Tuples[i].Subject)
+//@   ensures[C08] one-result-per-tuple: result1 == nil ==> result0 != nil && len(result0.Results) == len(req.Tuples)
+//@   loop 1 invariant ketoTuples != nil && len(ketoTuples) == len(req.Tuples) && fresh(ketoTuples) && (forall k in 0..$n :: ketoTuples[k] != nil)
+
+//@ func (*Handler).batchCheck
+//@   props C08 C13 C17
+//@   requires wfh(h) && wfreq(r) && w != nil && r.Body != nil
